@@ -1,4 +1,3 @@
-<<<<<<< HEAD
 (* Invariants of the relay's id tables (Model/RelayFwd.v): ids handed out by NextMessageID are
    fresh, the two tables of a relayed call point at each other, no two relayed calls share a
    remapped id on the same destination connection. *)
@@ -606,1301 +605,3 @@ Qed.
 Print Assumptions run_inv.
 Print Assumptions alloc_fresh.
 Print Assumptions run_inverse.
-=======
-(* Relay model: the bookkeeping invariant (every reachable state of fresh-id runs).
-   - the End token of every started call is in exactly one place: the ghost log, a thread's
-     pending code, or the live originating item (=> End at most once);
-   - Relayer.pending = live items of the connection + units held by threads;
-   - keys are never reused, tomb GC timers only ever meet tombstones. *)
-From Coq Require Import ZArith List Bool Lia.
-From Verif Require Import Base.Wrap Gen.GenConsts Gen.GenFrame Model.RelayItems Proofs.RelayAssocP Proofs.RelayCoreP.
-Import ListNotations.
-Local Open Scope Z_scope.
-
-Notation klookup := (lookup key_eqb).
-Notation kinsert := (insert key_eqb).
-Notation kremove := (remove key_eqb).
-
-(* ---------------------------------------------------------------- definitions *)
-
-Definition adm_kf (i : instr) : option (Z * frame) :=
-  match i with
-  | IStart k f _ | ICanHandle k f _ _ | IGetDest k f _ _ | IRemoteCan k f _ _ _
-  | IAddDest k f _ _ _ | IAddOrig k f _ _ _ _ => Some (k, f)
-  | _ => None
-  end.
-Definition is_adm (i : instr) : bool := match adm_kf i with Some _ => true | None => false end.
-
-Definition key_free (its : list (key * item)) (g : list key) (sn : list (Z * Z)) (k : Z) (f : frame) : Prop :=
-  In (k, f_id f) sn /\ klookup (k, 0, f_id f) its = None /\ ~ In (k, 0, f_id f) g.
-
-Definition iok (its : list (key * item)) (g : list key) (sn : list (Z * Z)) (th : tid) (i : instr) : Prop :=
-  match adm_kf i with
-  | Some (k, f) => th = TR k /\ key_free its g sn k f
-  | None => match i with IEntomb t (FromTimeout o) => o = (key_dir t =? 0) | _ => True end
-  end.
-
-Definition code_ok its g sn (th : tid) (code : list instr) : Prop :=
-  Forall (iok its g sn th) code /\ (forall i, In i code -> is_adm i = true -> code = [i]).
-
-Definition keys_ok (cs : list (Z * conn)) (its : list (key * item)) (g : list key) (sn : list (Z * Z)) : Prop :=
-  forall t, In t (map fst its) \/ In t g ->
-    (key_dir t = 0 /\ In (key_conn t, key_id t) sn) \/
-    (key_dir t = 1 /\ key_id t < c_nextid (getc cs (key_conn t))).
-
-Definition orig_ok (its : list (key * item)) : Prop :=
-  forall t it, In (t, it) its -> it_orig it = (key_dir t =? 0).
-
-Definition gcs_ok (its : list (key * item)) (g : list key) : Prop :=
-  forall t it, In t g -> klookup t its = Some it -> it_tomb it = true.
-
-Definition timers_ok (tms : list (Z * timer)) : Prop :=
-  forall tm x, lookup Z.eqb tm tms = Some x -> tm_orig x = (key_dir (tm_key x) =? 0).
-
-Definition b2z (b : bool) : Z := if b then 1 else 0.
-
-Definition tok_i (c : Z) (i : instr) : Z :=
-  match i with
-  | ICb c' CbEnd => b2z (c' =? c)
-  | ICanHandle _ _ _ c' | IGetDest _ _ _ c' | IRemoteCan _ _ _ c' _ | IAddDest _ _ _ c' _ | IAddOrig _ _ _ c' _ _ => b2z (c' =? c)
-  | _ => 0
-  end.
-Definition item_tok (c : Z) (t : key) (it : item) : Z := b2z ((it_call it =? c) && it_orig it && negb (it_tomb it)).
-Definition started (c : Z) (nc : Z) : Z := b2z ((1 <=? c) && (c <? nc)).
-
-Definition hold_i (k : Z) (i : instr) : Z :=
-  match i with
-  | IDec k' | IGetDest k' _ _ _ | IRemoteCan k' _ _ _ _ | IAddOrig k' _ _ _ _ _ => b2z (k' =? k)
-  | IAddDest k' _ _ _ d => b2z (k' =? k) + b2z (d =? k)
-  | _ => 0
-  end.
-Definition live_i (k : Z) (t : key) (it : item) : Z := b2z ((key_conn t =? k) && negb (it_tomb it)).
-
-Definition total (c : Z) (st : state) : Z :=
-  ends c (cblog st) + tsum (tok_i c) (threads st) + asum (item_tok c) (items st).
-
-Record Inv (st : state) : Prop := {
-  inv_items_nd : NoDup (map fst (items st));
-  inv_threads_nd : NoDup (map fst (threads st));
-  inv_keys : keys_ok (conns st) (items st) (gcs st) (seen st);
-  inv_orig : orig_ok (items st);
-  inv_gcs : gcs_ok (items st) (gcs st);
-  inv_timers : timers_ok (timers st);
-  inv_code : forall th code, In (th, code) (threads st) -> code_ok (items st) (gcs st) (seen st) th code;
-  inv_total : forall c, total c st = started c (next_call st);
-  inv_pending : forall k, c_pending (getc (conns st) k) =
-                  wrapU 32 (asum (live_i k) (items st) + tsum (hold_i k) (threads st));
-  inv_next : 1 <= next_call st
-}.
-
-(* ---------------------------------------------------------------- small facts *)
-
-Lemma b2z_nonneg : forall b, 0 <= b2z b. Proof. destruct b; cbn; lia. Qed.
-Lemma tok_i_nonneg : forall c i, 0 <= tok_i c i.
-Proof. intros c i. destruct i; cbn; try lia; try apply b2z_nonneg. destruct x; try lia. apply b2z_nonneg. Qed.
-Lemma item_tok_nonneg : forall c t it, 0 <= item_tok c t it. Proof. intros. apply b2z_nonneg. Qed.
-
-Lemma wrapU_add_l : forall a b, wrapU 32 (wrapU 32 a + b) = wrapU 32 (a + b).
-Proof. intros a b. unfold wrapU. apply Zplus_mod_idemp_l. Qed.
-
-Lemma wrapU_eq_add : forall p a b, p = wrapU 32 a -> wrapU 32 (p + b) = wrapU 32 (a + b).
-Proof. intros p a b H. subst. apply wrapU_add_l. Qed.
-
-Lemma timers_ok_insert : forall tms tm x, timers_ok tms -> tm_orig x = (key_dir (tm_key x) =? 0) ->
-  timers_ok (insert Z.eqb tm x tms).
-Proof.
-  intros tms tm x H Hx tm' y Hl.
-  destruct (Z.eq_dec tm' tm) as [->|Hn].
-  - rewrite (lookup_insert_eq Z.eqb zeqb_ok) in Hl. inversion Hl. subst. exact Hx.
-  - rewrite (lookup_insert_neq Z.eqb zeqb_ok) in Hl by exact Hn. eapply H. exact Hl.
-Qed.
-
-Lemma timer_stop_timers : forall st tm st' b, timers_ok (timers st) -> timer_stop st tm = (st', b) -> timers_ok (timers st').
-Proof.
-  intros st tm st' b H Hs. unfold timer_stop in Hs.
-  destruct (lookup Z.eqb tm (timers st)) as [t|] eqn:El.
-  - destruct (tm_released t); [inversion Hs; exact H|].
-    destruct (tm_stopped t); [inversion Hs; subst; exact H|].
-    destruct (tm_armed t); inversion Hs; subst; [|exact H].
-    cbn. apply timers_ok_insert; [exact H|]. cbn. eapply H. exact El.
-  - inversion Hs. exact H.
-Qed.
-
-Lemma timer_release_timers : forall st tm, timers_ok (timers st) -> timers_ok (timers (timer_release st tm)).
-Proof.
-  intros st tm H. unfold timer_release.
-  destruct (lookup Z.eqb tm (timers st)) as [t|] eqn:El; [|exact H].
-  destruct (tm_released t); [exact H|]. destruct (tm_active t); [exact H|].
-  cbn. apply timers_ok_insert; [exact H|]. cbn. eapply H. exact El.
-Qed.
-
-Lemma timer_new_timers : forall st t o st' tm, timers_ok (timers st) -> o = (key_dir t =? 0) ->
-  timer_new st t o = (st', tm) -> timers_ok (timers st').
-Proof.
-  intros st t o st' tm H Ho Hn. unfold timer_new in Hn. inversion Hn. subst. cbn.
-  apply timers_ok_insert; [exact H|]. reflexivity.
-Qed.
-
-Lemma items_get_timers : forall st t stop st' g, timers_ok (timers st) -> items_get st t stop = (st', g) -> timers_ok (timers st').
-Proof.
-  intros st t stop st' g H Hg. unfold items_get in Hg.
-  destruct (klookup t (items st)) as [it|]; [|inversion Hg; subst; exact H].
-  destruct stop; [|inversion Hg; subst; exact H].
-  destruct (timer_stop st (it_tm it)) as [st2 b] eqn:E. inversion Hg. subst.
-  eapply timer_stop_timers; eassumption.
-Qed.
-
-Lemma items_delete_timers : forall st t st' g, timers_ok (timers st) -> items_delete st t = (st', g) -> timers_ok (timers st').
-Proof.
-  intros st t st' g H Hd. unfold items_delete in Hd.
-  destruct (klookup t (items st)) as [it|]; inversion Hd; subst; [|exact H].
-  apply timer_release_timers. exact H.
-Qed.
-
-Lemma items_entomb_timers : forall cf st t st' g, timers_ok (timers st) -> items_entomb cf st t = (st', g) -> timers_ok (timers st').
-Proof.
-  intros cf st t st' g H He. unfold items_entomb in He.
-  destruct (cf_maxtombs cf <? tomb_count st (key_conn t) (key_dir t)); [eapply items_delete_timers; eassumption|].
-  destruct (klookup t (items st)) as [it|]; [|inversion He; subst; exact H].
-  destruct (it_tomb it); inversion He; subst; exact H.
-Qed.
-
-(* key_free is about one key only *)
-Lemma key_free_ext : forall its g sn its' g' sn' k f,
-  key_free its g sn k f ->
-  incl sn sn' ->
-  klookup (k, 0, f_id f) its' = klookup (k, 0, f_id f) its ->
-  (In (k, 0, f_id f) g' -> In (k, 0, f_id f) g) ->
-  key_free its' g' sn' k f.
-Proof.
-  intros its g sn its' g' sn' k f (H1&H2&H3) Hs Hl Hg. repeat split.
-  - apply Hs. exact H1.
-  - rewrite Hl. exact H2.
-  - intro Hin. apply H3. apply Hg. exact Hin.
-Qed.
-
-(* ---------------------------------------------------------------- effects on the item table *)
-
-Section ItemEffects.
-  Variables (cs : list (Z * conn)) (its : list (key * item)) (g : list key) (sn : list (Z * Z)).
-  Hypothesis Hnd : NoDup (map fst its).
-  Hypothesis Hkeys : keys_ok cs its g sn.
-  Hypothesis Horig : orig_ok its.
-  Hypothesis Hgcs : gcs_ok its g.
-
-  (* remove a key *)
-  Lemma keys_ok_remove : forall t, keys_ok cs (kremove t its) g sn.
-  Proof.
-    intros t t' [Hin|Hin]; apply Hkeys; [left|right; exact Hin].
-    apply (in_keys_remove key_eqb key_eqb_ok) in Hin. destruct Hin as [Hin _]. exact Hin.
-  Qed.
-  Lemma orig_ok_remove : forall t, orig_ok (kremove t its).
-  Proof.
-    intros t t' it Hin. apply (in_remove key_eqb key_eqb_ok) in Hin. destruct Hin as [Hin _]. eapply Horig. exact Hin.
-  Qed.
-  Lemma gcs_ok_remove : forall t, gcs_ok (kremove t its) g.
-  Proof.
-    intros t t' it Hin Hl. destruct (eqb_dec key_eqb key_eqb_ok t' t) as [->|Hn].
-    - rewrite (lookup_remove_eq key_eqb key_eqb_ok) in Hl. discriminate.
-    - rewrite (lookup_remove_neq key_eqb key_eqb_ok) in Hl by exact Hn. eapply Hgcs; eassumption.
-  Qed.
-
-  (* entomb an existing live item *)
-  Lemma keys_ok_entomb : forall t it, klookup t its = Some it -> keys_ok cs (kinsert t (entomb_item it) its) (t :: g) sn.
-  Proof.
-    intros t it Hl t' Hin. apply Hkeys.
-    assert (Ht : In t (map fst its)).
-    { apply (lookup_in key_eqb key_eqb_ok) in Hl. apply (in_map fst) in Hl. exact Hl. }
-    destruct Hin as [Hin|[Hin|Hin]].
-    - apply (in_keys_insert key_eqb key_eqb_ok) in Hin. destruct Hin as [->|Hin]; left; assumption.
-    - subst. left. exact Ht.
-    - right. exact Hin.
-  Qed.
-  Lemma orig_ok_entomb : forall t it, klookup t its = Some it -> orig_ok (kinsert t (entomb_item it) its).
-  Proof.
-    intros t it Hl t' it' Hin. apply (in_insert key_eqb key_eqb_ok) in Hin.
-    destruct Hin as [[-> ->]|[Hin _]].
-    - cbn. eapply Horig. eapply (lookup_in key_eqb key_eqb_ok). exact Hl.
-    - eapply Horig. exact Hin.
-  Qed.
-  Lemma gcs_ok_entomb : forall t it, gcs_ok (kinsert t (entomb_item it) its) (t :: g).
-  Proof.
-    intros t it t' it' Hin Hl. destruct (eqb_dec key_eqb key_eqb_ok t' t) as [->|Hn].
-    - rewrite (lookup_insert_eq key_eqb key_eqb_ok) in Hl. inversion Hl. reflexivity.
-    - rewrite (lookup_insert_neq key_eqb key_eqb_ok) in Hl by exact Hn.
-      destruct Hin as [Hin|Hin]; [congruence|]. eapply Hgcs; eassumption.
-  Qed.
-
-  (* add a new key *)
-  Lemma orig_ok_add : forall t it, it_orig it = (key_dir t =? 0) -> orig_ok (kinsert t it its).
-  Proof.
-    intros t it Ho t' it' Hin. apply (in_insert key_eqb key_eqb_ok) in Hin.
-    destruct Hin as [[-> ->]|[Hin _]]; [exact Ho|eapply Horig; exact Hin].
-  Qed.
-  Lemma gcs_ok_add : forall t it, ~ In t g -> gcs_ok (kinsert t it its) g.
-  Proof.
-    intros t it Hng t' it' Hin Hl. destruct (eqb_dec key_eqb key_eqb_ok t' t) as [->|Hn]; [contradiction|].
-    rewrite (lookup_insert_neq key_eqb key_eqb_ok) in Hl by exact Hn. eapply Hgcs; eassumption.
-  Qed.
-End ItemEffects.
-
-Lemma asum_tok_entomb : forall c its t it, NoDup (map fst its) -> klookup t its = Some it -> it_tomb it = false ->
-  asum (item_tok c) (kinsert t (entomb_item it) its) = asum (item_tok c) its - b2z ((it_call it =? c) && it_orig it).
-Proof.
-  intros c its t it Hnd Hl Ht. rewrite (asum_insert_some key_eqb key_eqb_ok _ t _ it) by assumption.
-  unfold item_tok. cbn. rewrite Ht. rewrite !andb_false_r, andb_true_r. cbn. lia.
-Qed.
-
-Lemma asum_live_entomb : forall k its t it, NoDup (map fst its) -> klookup t its = Some it -> it_tomb it = false ->
-  asum (live_i k) (kinsert t (entomb_item it) its) = asum (live_i k) its - b2z (key_conn t =? k).
-Proof.
-  intros k its t it Hnd Hl Ht. rewrite (asum_insert_some key_eqb key_eqb_ok _ t _ it) by assumption.
-  unfold live_i. cbn. rewrite Ht. rewrite andb_false_r, andb_true_r. cbn. lia.
-Qed.
-
-Lemma asum_tok_remove : forall c its t it, NoDup (map fst its) -> klookup t its = Some it ->
-  asum (item_tok c) (kremove t its) = asum (item_tok c) its - b2z ((it_call it =? c) && it_orig it && negb (it_tomb it)).
-Proof. intros. rewrite (asum_remove_some key_eqb key_eqb_ok _ t it) by assumption. reflexivity. Qed.
-
-Lemma asum_live_remove : forall k its t it, NoDup (map fst its) -> klookup t its = Some it ->
-  asum (live_i k) (kremove t its) = asum (live_i k) its - b2z ((key_conn t =? k) && negb (it_tomb it)).
-Proof. intros. rewrite (asum_remove_some key_eqb key_eqb_ok _ t it) by assumption. reflexivity. Qed.
-
-(* ---------------------------------------------------------------- effect of one instruction *)
-
-Definition plain (j : instr) : Prop :=
-  is_adm j = false /\ match j with IEntomb t (FromTimeout o) => o = (key_dir t =? 0) | _ => True end.
-
-Lemma plain_iok : forall its g sn th j, plain j -> iok its g sn th j.
-Proof.
-  intros its g sn th j [Ha Hj]. unfold iok. unfold is_adm in Ha.
-  destruct (adm_kf j); [discriminate|exact Hj].
-Qed.
-
-Lemma plain_simple : forall j, is_adm j = false -> (forall t o, j <> IEntomb t (FromTimeout o)) -> plain j.
-Proof.
-  intros j Ha Hn. split; [exact Ha|]. destruct j; try exact I. destruct s; [exact I|]. exfalso. eapply Hn. reflexivity.
-Qed.
-
-Definition Eff (st : state) (th : tid) (i : instr) (st1 : state) (pushed : list instr) : Prop :=
-  threads st1 = threads st /\ seen st1 = seen st /\
-  NoDup (map fst (items st1)) /\
-  keys_ok (conns st1) (items st1) (gcs st1) (seen st1) /\
-  orig_ok (items st1) /\ gcs_ok (items st1) (gcs st1) /\ timers_ok (timers st1) /\
-  (forall k f, th <> TR k -> key_free (items st) (gcs st) (seen st) k f -> key_free (items st1) (gcs st1) (seen st1) k f) /\
-  Forall (iok (items st1) (gcs st1) (seen st1) th) pushed /\
-  ((is_adm i = true /\ exists j, pushed = [j]) \/ Forall (fun j => is_adm j = false) pushed) /\
-  (forall c, ends c (cblog st1) + asum (item_tok c) (items st1) + csum (tok_i c) pushed - started c (next_call st1)
-           = ends c (cblog st) + asum (item_tok c) (items st) + tok_i c i - started c (next_call st)) /\
-  (forall k X, c_pending (getc (conns st) k) = wrapU 32 (asum (live_i k) (items st) + X + hold_i k i) ->
-               c_pending (getc (conns st1) k) = wrapU 32 (asum (live_i k) (items st1) + X + csum (hold_i k) pushed)) /\
-  next_call st <= next_call st1.
-
-Lemma keys_ok_conns : forall cs cs' its g sn,
-  (forall k, c_nextid (getc cs k) <= c_nextid (getc cs' k)) -> keys_ok cs its g sn -> keys_ok cs' its g sn.
-Proof.
-  intros cs cs' its g sn Hm H t Hin. destruct (H t Hin) as [H0|[H1 H2]]; [left; exact H0|right].
-  split; [exact H1|]. specialize (Hm (key_conn t)). lia.
-Qed.
-
-(* instructions that leave items, gcs, seen, next_call and the counters of every connection alone *)
-Lemma Eff_pure : forall st th i st1 pushed,
-  Inv st ->
-  threads st1 = threads st -> seen st1 = seen st -> items st1 = items st -> gcs st1 = gcs st ->
-  next_call st1 = next_call st -> timers_ok (timers st1) ->
-  (forall k, c_pending (getc (conns st1) k) = c_pending (getc (conns st) k) /\
-             c_nextid (getc (conns st1) k) = c_nextid (getc (conns st) k)) ->
-  Forall plain pushed ->
-  (forall c, ends c (cblog st1) + csum (tok_i c) pushed = ends c (cblog st) + tok_i c i) ->
-  (forall k, csum (hold_i k) pushed = hold_i k i) ->
-  Eff st th i st1 pushed.
-Proof.
-  intros st th i st1 pushed HI Hth Hsn Hit Hg Hnc Htm Hcs Hpl Htok Hhold.
-  unfold Eff. rewrite Hth, Hsn, Hit, Hg, Hnc.
-  split; [reflexivity|]. split; [reflexivity|].
-  split; [apply (inv_items_nd _ HI)|].
-  split. { eapply keys_ok_conns; [|apply (inv_keys _ HI)]. intro k. destruct (Hcs k) as [_ H]. lia. }
-  split; [apply (inv_orig _ HI)|]. split; [apply (inv_gcs _ HI)|]. split; [exact Htm|].
-  split; [intros k f _ H; exact H|].
-  split. { eapply Forall_impl; [|exact Hpl]. intros j Hj. apply plain_iok. exact Hj. }
-  split. { right. eapply Forall_impl; [|exact Hpl]. intros j [Hj _]. exact Hj. }
-  split. { intro c. specialize (Htok c). lia. }
-  split; [|lia].
-  intros k X H. destruct (Hcs k) as [Hp _]. rewrite Hp, H. rewrite Hhold. reflexivity.
-Qed.
-
-Lemma core_fields : forall a b, core_eq a b ->
-  conns a = conns b /\ items a = items b /\ gcs a = gcs b /\ threads a = threads b /\
-  cblog a = cblog b /\ sent a = sent b /\ seen a = seen b /\ next_call a = next_call b.
-Proof. intros a b H. exact H. Qed.
-
-Ltac plain_tac :=
-  repeat match goal with
-         | |- Forall plain [] => constructor
-         | |- Forall plain (_ :: _) => constructor
-         | |- Forall plain (_ ++ _) => apply Forall_app; split
-         | |- Forall plain (if ?b then _ else _) => destruct b
-         | |- plain _ => apply plain_simple; [reflexivity|intros ? ?; discriminate]
-         end.
-
-Lemma is_end_tok : forall c c' x, is_end c (c', x) = tok_i c (ICb c' x).
-Proof. intros c c' x. unfold is_end. cbn. destruct x; try reflexivity. Qed.
-
-(* code pushed after Receive returns *)
-Lemma after_sent_plain : forall r, Forall plain (after_sent r).
-Proof. intro r. unfold after_sent. plain_tac. Qed.
-Lemma after_sent_tok : forall c r, csum (tok_i c) (after_sent r) = 0.
-Proof. intros c r. unfold after_sent. destruct (fin_of (r_f r)), (0 <? r_more r); reflexivity. Qed.
-Lemma after_sent_hold : forall k r, csum (hold_i k) (after_sent r) = 0.
-Proof. intros k r. unfold after_sent. destruct (fin_of (r_f r)), (0 <? r_more r); reflexivity. Qed.
-
-Lemma conns_same : forall st st1 k, conns st1 = conns st ->
-  c_pending (getc (conns st1) k) = c_pending (getc (conns st) k) /\
-  c_nextid (getc (conns st1) k) = c_nextid (getc (conns st) k).
-Proof. intros st st1 k H. rewrite H. split; reflexivity. Qed.
-
-Lemma Eff_ICb : forall st th c x, Inv st -> Eff st th (ICb c x) (log_cb st c x) [].
-Proof.
-  intros st th c x HI. apply Eff_pure; try reflexivity; try exact HI.
-  - apply (inv_timers _ HI).
-  - intro k. apply conns_same. reflexivity.
-  - constructor.
-  - intro c0. cbn [log_cb set_cblog cblog ends csum]. rewrite is_end_tok. lia.
-Qed.
-
-Lemma Eff_ISendErr : forall cf st th k id code room st1 pushed, Inv st ->
-  exec cf st (ISendErr k id code) room = (st1, pushed) -> Eff st th (ISendErr k id code) st1 pushed.
-Proof.
-  intros cf st th k id code room st1 pushed HI H. cbn [exec] in H.
-  destruct ((c_state (get_conn st k) =? c_connectionClosed) || negb room); inversion H; subst;
-    (apply Eff_pure; try reflexivity; try exact HI;
-     [apply (inv_timers _ HI)|intro; apply conns_same; reflexivity|constructor]).
-Qed.
-
-Lemma Eff_IConnClose : forall cf st th k room st1 pushed, Inv st ->
-  exec cf st (IConnClose k) room = (st1, pushed) -> Eff st th (IConnClose k) st1 pushed.
-Proof.
-  intros cf st th k room st1 pushed HI H. cbn [exec] in H.
-  destruct (c_state (get_conn st k) =? c_connectionActive); inversion H; subst.
-  - apply Eff_pure; try reflexivity; try exact HI; [apply (inv_timers _ HI)| |constructor].
-    intro k'. cbn [put_conn set_conns conns]. rewrite getc_insert.
-    destruct (k' =? k) eqn:E; [|split; reflexivity].
-    apply Z.eqb_eq in E. subst. cbn. rewrite get_conn_getc. split; reflexivity.
-  - apply Eff_pure; try reflexivity; try exact HI; [apply (inv_timers _ HI)|intro; apply conns_same; reflexivity|constructor].
-Qed.
-
-Lemma Eff_of_get : forall st th i st' pushed t stop g, Inv st ->
-  items_get st t stop = (st', g) ->
-  Forall plain pushed ->
-  (forall c, csum (tok_i c) pushed = tok_i c i) ->
-  (forall k, csum (hold_i k) pushed = hold_i k i) ->
-  Eff st th i st' pushed.
-Proof.
-  intros st th i st' pushed t stop g HI Hg Hpl Htok Hhold.
-  pose proof (items_get_timers _ _ _ _ _ (inv_timers _ HI) Hg) as Htm.
-  apply items_get_spec in Hg. destruct Hg as [Hc _].
-  destruct Hc as (H1&H2&H3&H4&H5&H6&H7&H8).
-  apply Eff_pure; try assumption.
-  - intro k. rewrite H1. split; reflexivity.
-  - intro c. rewrite H5, Htok. reflexivity.
-Qed.
-
-Lemma Eff_INcGet : forall cf st th k f room st1 pushed, Inv st ->
-  exec cf st (INcGet k f) room = (st1, pushed) -> Eff st th (INcGet k f) st1 pushed.
-Proof.
-  intros cf st th k f room st1 pushed HI H. cbn [exec] in H.
-  destruct (frameTypeFor (f_mt f)) as [ft|].
-  - destruct (items_get st (k, (if ft =? c_responseFrame then 1 else 0), f_id f) (fin_of f)) as [st' g] eqn:E.
-    inversion H. subst. eapply Eff_of_get; [exact HI|exact E| | |]; try reflexivity. plain_tac.
-  - inversion H. subst. apply Eff_pure; try reflexivity; try exact HI;
-      [apply (inv_timers _ HI)|intro; apply conns_same; reflexivity|constructor].
-Qed.
-
-Lemma Eff_INcChk : forall cf st th k f ft own g room st1 pushed, Inv st ->
-  exec cf st (INcChk k f ft own g) room = (st1, pushed) -> Eff st th (INcChk k f ft own g) st1 pushed.
-Proof.
-  intros cf st th k f ft own g room st1 pushed HI H. cbn [exec] in H.
-  assert (Hbase : forall p, Forall plain p -> (forall c, csum (tok_i c) p = 0) -> (forall k0, csum (hold_i k0) p = 0) ->
-                            Eff st th (INcChk k f ft own g) st p).
-  { intros p Hp Ht Hh. apply Eff_pure; try reflexivity; try exact HI;
-      [apply (inv_timers _ HI)|intro; apply conns_same; reflexivity|exact Hp|intro c; rewrite Ht; reflexivity|intro k0; rewrite Hh; reflexivity]. }
-  destruct g as [[it stopped]|]; [|inversion H; subst; apply Hbase; [constructor|reflexivity|reflexivity]].
-  destruct (it_tomb it || (fin_of f && negb stopped)); inversion H; subst.
-  - apply Hbase; [constructor|reflexivity|reflexivity].
-  - apply Hbase.
-    + plain_tac.
-    + intro c. destruct ((f_mt f =? c_messageTypeCallRes) && f_wf f), (ft =? c_requestFrame); reflexivity.
-    + intro k0. destruct ((f_mt f =? c_messageTypeCallRes) && f_wf f), (ft =? c_requestFrame); reflexivity.
-Qed.
-
-Lemma Eff_IRcvGet : forall cf st th r room st1 pushed, Inv st ->
-  exec cf st (IRcvGet r) room = (st1, pushed) -> Eff st th (IRcvGet r) st1 pushed.
-Proof.
-  intros cf st th r room st1 pushed HI H. cbn [exec] in H.
-  match type of H with context [items_get ?a ?b ?c] => destruct (items_get a b c) as [st' g] eqn:E end.
-  inversion H. subst. eapply Eff_of_get; [exact HI|exact E| | |]; try reflexivity. plain_tac.
-Qed.
-
-Lemma Eff_IRcvChk : forall cf st th r rk g room st1 pushed, Inv st ->
-  exec cf st (IRcvChk r rk g) room = (st1, pushed) -> Eff st th (IRcvChk r rk g) st1 pushed.
-Proof.
-  intros cf st th r rk g room st1 pushed HI H. cbn [exec] in H.
-  assert (Hbase : forall p, Forall plain p -> (forall c, csum (tok_i c) p = 0) -> (forall k0, csum (hold_i k0) p = 0) ->
-                            Eff st th (IRcvChk r rk g) st p).
-  { intros p Hp Ht Hh. apply Eff_pure; try reflexivity; try exact HI;
-      [apply (inv_timers _ HI)|intro; apply conns_same; reflexivity|exact Hp|intro c; rewrite Ht; reflexivity|intro k0; rewrite Hh; reflexivity]. }
-  destruct g as [[it stopped]|].
-  - destruct (it_tomb it || (fin_of (r_f r) && negb stopped)); inversion H; subst.
-    + apply Hbase; [apply after_sent_plain|intro; apply after_sent_tok|intro; apply after_sent_hold].
-    + apply Hbase.
-      * plain_tac.
-      * intro c. rewrite csum_app.
-        destruct ((r_ft r =? c_responseFrame) || (f_mt (r_f r) =? c_messageTypeCancel));
-          [destruct (dcsSucceeded _ _ _); [reflexivity|destruct (0 <? zlen _); reflexivity]|reflexivity].
-      * intro k0. rewrite csum_app.
-        destruct ((r_ft r =? c_responseFrame) || (f_mt (r_f r) =? c_messageTypeCancel));
-          [destruct (dcsSucceeded _ _ _); [reflexivity|destruct (0 <? zlen _); reflexivity]|reflexivity].
-  - inversion H; subst. apply Hbase; [unfold after_unsent; plain_tac|reflexivity|reflexivity].
-Qed.
-
-Lemma Eff_IRcvEnq : forall cf st th r rk room st1 pushed, Inv st ->
-  exec cf st (IRcvEnq r rk) room = (st1, pushed) -> Eff st th (IRcvEnq r rk) st1 pushed.
-Proof.
-  intros cf st th r rk room st1 pushed HI H. cbn [exec] in H.
-  destruct room; inversion H; subst.
-  - apply Eff_pure; try reflexivity; try exact HI; [apply (inv_timers _ HI)|intro; apply conns_same; reflexivity| | |].
-    + apply Forall_app. split; [plain_tac|apply after_sent_plain].
-    + intro c. rewrite csum_app, after_sent_tok. destruct (fin_of (r_f r)); reflexivity.
-    + intro k0. rewrite csum_app, after_sent_hold. destruct (fin_of (r_f r)); reflexivity.
-  - apply Eff_pure; try reflexivity; try exact HI; [apply (inv_timers _ HI)|intro; apply conns_same; reflexivity|].
-    unfold after_unsent. plain_tac.
-Qed.
-
-Lemma Eff_IFailGet : forall cf st th t reason room st1 pushed, Inv st ->
-  exec cf st (IFailGet t reason) room = (st1, pushed) -> Eff st th (IFailGet t reason) st1 pushed.
-Proof.
-  intros cf st th t reason room st1 pushed HI H. cbn [exec] in H.
-  destruct (items_get st t true) as [st' g] eqn:E.
-  assert (Hb : forall p, (st', p) = (st1, pushed) -> Forall plain p -> (forall c, csum (tok_i c) p = 0) ->
-                         (forall k0, csum (hold_i k0) p = 0) -> Eff st th (IFailGet t reason) st1 pushed).
-  { intros p Hp Hpl Ht Hh. inversion Hp. subst. eapply Eff_of_get; [exact HI|exact E|exact Hpl| |].
-    - intro c. rewrite Ht. reflexivity.
-    - intro k0. rewrite Hh. reflexivity. }
-  destruct g as [[it [|]]|]; eapply Hb; try exact H; try reflexivity; plain_tac.
-Qed.
-
-Lemma Eff_ITimerRun : forall cf st th tm room st1 pushed, Inv st ->
-  exec cf st (ITimerRun tm) room = (st1, pushed) -> Eff st th (ITimerRun tm) st1 pushed.
-Proof.
-  intros cf st th tm room st1 pushed HI H. cbn [exec] in H.
-  destruct (lookup Z.eqb tm (timers st)) as [t|] eqn:El.
-  - destruct (tm_released t); inversion H; subst.
-    + apply Eff_pure; try reflexivity; try exact HI; [apply (inv_timers _ HI)|intro; apply conns_same; reflexivity|constructor].
-    + apply Eff_pure; try reflexivity; try exact HI.
-      * cbn. apply timers_ok_insert; [apply (inv_timers _ HI)|]. cbn. eapply (inv_timers _ HI). exact El.
-      * intro; apply conns_same; reflexivity.
-      * constructor; [|constructor]. split; [reflexivity|]. eapply (inv_timers _ HI). exact El.
-  - inversion H; subst. apply Eff_pure; try reflexivity; try exact HI;
-      [apply (inv_timers _ HI)|intro; apply conns_same; reflexivity|constructor].
-Qed.
-
-(* instructions that leave items, gcs, seen and threads alone (connections / next_call may change) *)
-Lemma Eff_noitems : forall st th i st1 pushed,
-  Inv st ->
-  threads st1 = threads st -> seen st1 = seen st -> items st1 = items st -> gcs st1 = gcs st ->
-  timers_ok (timers st1) ->
-  (forall k, c_nextid (getc (conns st) k) <= c_nextid (getc (conns st1) k)) ->
-  Forall (iok (items st) (gcs st) (seen st) th) pushed ->
-  ((is_adm i = true /\ exists j, pushed = [j]) \/ Forall (fun j => is_adm j = false) pushed) ->
-  (forall c, ends c (cblog st1) + csum (tok_i c) pushed - started c (next_call st1)
-           = ends c (cblog st) + tok_i c i - started c (next_call st)) ->
-  (forall k X, c_pending (getc (conns st) k) = wrapU 32 (asum (live_i k) (items st) + X + hold_i k i) ->
-               c_pending (getc (conns st1) k) = wrapU 32 (asum (live_i k) (items st) + X + csum (hold_i k) pushed)) ->
-  next_call st <= next_call st1 ->
-  Eff st th i st1 pushed.
-Proof.
-  intros st th i st1 pushed HI Hth Hsn Hit Hg Htm Hcs Hiok Hadm Htok Hpend Hnc.
-  unfold Eff. rewrite Hth, Hsn, Hit, Hg.
-  split; [reflexivity|]. split; [reflexivity|].
-  split; [apply (inv_items_nd _ HI)|].
-  split. { eapply keys_ok_conns; [|apply (inv_keys _ HI)]. exact Hcs. }
-  split; [apply (inv_orig _ HI)|]. split; [apply (inv_gcs _ HI)|]. split; [exact Htm|].
-  split; [intros k f _ H; exact H|].
-  split; [exact Hiok|]. split; [exact Hadm|].
-  split. { intro c. specialize (Htok c). lia. }
-  split; [exact Hpend|exact Hnc].
-Qed.
-
-Lemma started_succ : forall c nc, 1 <= nc -> started c (nc + 1) = started c nc + b2z (nc =? c).
-Proof.
-  intros c nc H. unfold started, b2z.
-  destruct (1 <=? c) eqn:E1, (c <? nc + 1) eqn:E2, (c <? nc) eqn:E3, (nc =? c) eqn:E4; cbn; try lia;
-    try (apply Z.leb_le in E1); try (apply Z.leb_gt in E1);
-    try (apply Z.ltb_lt in E2); try (apply Z.ltb_ge in E2);
-    try (apply Z.ltb_lt in E3); try (apply Z.ltb_ge in E3);
-    try (apply Z.eqb_eq in E4); try (apply Z.eqb_neq in E4); lia.
-Qed.
-
-Lemma iok_adm : forall its g sn th i k f, adm_kf i = Some (k, f) -> iok its g sn th i -> th = TR k /\ key_free its g sn k f.
-Proof. intros its g sn th i k f Ha H. unfold iok in H. rewrite Ha in H. exact H. Qed.
-
-Lemma iok_of_adm : forall its g sn th i k f, adm_kf i = Some (k, f) -> th = TR k -> key_free its g sn k f -> iok its g sn th i.
-Proof. intros its g sn th i k f Ha H1 H2. unfold iok. rewrite Ha. split; assumption. Qed.
-
-Ltac forall_plain_iok :=
-  eapply Forall_impl; [intros ? Hpl_; apply plain_iok; exact Hpl_|]; plain_tac.
-
-Lemma Eff_IStart : forall cf st th k f e room st1 pushed, Inv st ->
-  iok (items st) (gcs st) (seen st) th (IStart k f e) ->
-  exec cf st (IStart k f e) room = (st1, pushed) -> Eff st th (IStart k f e) st1 pushed.
-Proof.
-  intros cf st th k f e room st1 pushed HI Hi H. cbn [exec] in H.
-  apply (iok_adm _ _ _ _ (IStart k f e) k f eq_refl) in Hi. destruct Hi as [Hth Hkf].
-  pose proof (inv_next _ HI) as Hn1.
-  destruct (e_start e =? 0).
-  - inversion H. subst st1 pushed.
-    apply Eff_noitems; [exact HI|reflexivity|reflexivity|reflexivity|reflexivity| | | | | | | ].
-    + apply (inv_timers _ HI).
-    + intro; apply Z.le_refl.
-    + constructor; [|constructor]. eapply iok_of_adm; [reflexivity|exact Hth|exact Hkf].
-    + left. split; [reflexivity|eexists; reflexivity].
-    + intro c. cbn [set_next_call next_call cblog csum tok_i]. rewrite started_succ by exact Hn1. lia.
-    + intros k0 X Hp. cbn [set_next_call conns items csum hold_i]. rewrite Hp; f_equal; cbn; lia.
-    + cbn. lia.
-  - destruct ((e_start e =? 1) || (e_start e =? 3)) eqn:Ecall.
-    + inversion H. subst st1 pushed.
-      apply Eff_noitems; [exact HI|reflexivity|reflexivity|reflexivity|reflexivity| | | | | | | ].
-      * apply (inv_timers _ HI).
-      * intro; apply Z.le_refl.
-      * forall_plain_iok.
-      * right. destruct ((e_start e =? 1) || (e_start e =? 2)); [|destruct (e_code e =? c_ErrCodeProtocol)]; repeat constructor.
-      * intro c. cbn [set_next_call next_call cblog]. rewrite started_succ by exact Hn1. cbn [csum tok_i].
-        assert (Hz : csum (tok_i c) (if (e_start e =? 1) || (e_start e =? 2) then []
-                       else ISendErr k (f_id f) (e_code e) :: (if e_code e =? c_ErrCodeProtocol then [IConnClose k] else [])) = 0).
-        { destruct ((e_start e =? 1) || (e_start e =? 2)); [reflexivity|]. destruct (e_code e =? c_ErrCodeProtocol); reflexivity. }
-        rewrite Hz. lia.
-      * intros k0 X Hp. cbn [set_next_call conns items]. rewrite Hp. f_equal.
-        destruct ((e_start e =? 1) || (e_start e =? 2)); [|destruct (e_code e =? c_ErrCodeProtocol)]; cbn; lia.
-      * cbn. lia.
-    + inversion H. subst st1 pushed.
-      apply Eff_noitems; [exact HI|reflexivity|reflexivity|reflexivity|reflexivity| | | | | | | ].
-      * apply (inv_timers _ HI).
-      * intro; apply Z.le_refl.
-      * forall_plain_iok.
-      * right. destruct ((e_start e =? 1) || (e_start e =? 2)); [|destruct (e_code e =? c_ErrCodeProtocol)]; repeat constructor.
-      * intro c. destruct ((e_start e =? 1) || (e_start e =? 2)); [|destruct (e_code e =? c_ErrCodeProtocol)]; cbn; lia.
-      * intros k0 X Hp. rewrite Hp. f_equal.
-        destruct ((e_start e =? 1) || (e_start e =? 2)); [|destruct (e_code e =? c_ErrCodeProtocol)]; cbn; lia.
-      * lia.
-Qed.
-
-Lemma pending_put_same : forall st k cn k0,
-  c_nextid cn = c_nextid (getc (conns st) k) ->
-  c_nextid (getc (conns st) k0) <= c_nextid (getc (conns (put_conn st k cn)) k0).
-Proof.
-  intros st k cn k0 H. cbn [put_conn set_conns conns]. rewrite getc_insert.
-  destruct (k0 =? k) eqn:E; [|lia]. apply Z.eqb_eq in E. subst. lia.
-Qed.
-
-Lemma Eff_ICanHandle : forall cf st th k f e c room st1 pushed, Inv st ->
-  iok (items st) (gcs st) (seen st) th (ICanHandle k f e c) ->
-  exec cf st (ICanHandle k f e c) room = (st1, pushed) -> Eff st th (ICanHandle k f e c) st1 pushed.
-Proof.
-  intros cf st th k f e c room st1 pushed HI Hi H. cbn [exec] in H.
-  apply (iok_adm _ _ _ _ (ICanHandle k f e c) k f eq_refl) in Hi. destruct Hi as [Hth Hkf].
-  destruct (c_state (get_conn st k) =? c_connectionActive).
-  - inversion H. subst st1 pushed.
-    apply Eff_noitems; [exact HI|reflexivity|reflexivity|reflexivity|reflexivity| | | | | | | ].
-    + apply (inv_timers _ HI).
-    + intro k0. apply pending_put_same. reflexivity.
-    + constructor; [|constructor]. eapply iok_of_adm; [reflexivity|exact Hth|exact Hkf].
-    + left. split; [reflexivity|eexists; reflexivity].
-    + intro c0. cbn. lia.
-    + intros k0 X Hp. cbn [put_conn set_conns conns items]. rewrite getc_insert.
-      cbn [csum hold_i]. destruct (k0 =? k) eqn:E.
-      * apply Z.eqb_eq in E. subst k0. cbn [c_pending]. rewrite get_conn_getc.
-        rewrite Z.eqb_refl. cbn [b2z]. rewrite (wrapU_eq_add _ _ 1 Hp). f_equal. cbn. lia.
-      * rewrite Hp. rewrite Z.eqb_sym, E. cbn. f_equal.
-    + cbn. lia.
-  - inversion H. subst st1 pushed.
-    apply Eff_noitems; [exact HI|reflexivity|reflexivity|reflexivity|reflexivity| | | | | | | ].
-    + apply (inv_timers _ HI).
-    + intro; apply Z.le_refl.
-    + forall_plain_iok.
-    + right. repeat constructor.
-    + intro c0. cbn. lia.
-    + intros k0 X Hp. rewrite Hp. f_equal.
-    + lia.
-Qed.
-
-Lemma Eff_IGetDest : forall cf st th k f e c room st1 pushed, Inv st ->
-  iok (items st) (gcs st) (seen st) th (IGetDest k f e c) ->
-  exec cf st (IGetDest k f e c) room = (st1, pushed) -> Eff st th (IGetDest k f e c) st1 pushed.
-Proof.
-  intros cf st th k f e c room st1 pushed HI Hi H. cbn [exec] in H.
-  apply (iok_adm _ _ _ _ (IGetDest k f e c) k f eq_refl) in Hi. destruct Hi as [Hth Hkf].
-  assert (Hrej : forall p, Forall plain p -> Forall (fun j => is_adm j = false) p ->
-            (forall c0, csum (tok_i c0) p = b2z (c =? c0)) -> (forall k0, csum (hold_i k0) p = b2z (k =? k0)) ->
-            Eff st th (IGetDest k f e c) st p).
-  { intros p Hpl Hna Ht Hh. apply Eff_noitems; [exact HI|reflexivity|reflexivity|reflexivity|reflexivity| | | | | | | ].
-    - apply (inv_timers _ HI).
-    - intro; apply Z.le_refl.
-    - eapply Forall_impl; [|exact Hpl]. intros j Hj. apply plain_iok. exact Hj.
-    - right. exact Hna.
-    - intro c0. rewrite Ht. cbn. lia.
-    - intros k0 X Hp. rewrite Hp, Hh. reflexivity.
-    - lia. }
-  destruct (klookup (k, 0, f_id f) (items st)).
-  - inversion H. subst st1 pushed. apply Hrej; [plain_tac|repeat constructor| |].
-    + intro c0. cbn. lia.
-    + intro k0. cbn. lia.
-  - destruct (e_dest e =? -1).
-    + inversion H. subst st1 pushed. apply Hrej; [plain_tac|repeat constructor| |]; intros; cbn; lia.
-    + destruct (e_dest e <? 0).
-      * inversion H. subst st1 pushed. apply Hrej; [plain_tac|repeat constructor| |]; intros; cbn; lia.
-      * inversion H. subst st1 pushed. apply Eff_noitems; [exact HI|reflexivity|reflexivity|reflexivity|reflexivity| | | | | | | ].
-        -- apply (inv_timers _ HI).
-        -- intro; apply Z.le_refl.
-        -- constructor; [|constructor]. eapply iok_of_adm; [reflexivity|exact Hth|exact Hkf].
-        -- left. split; [reflexivity|eexists; reflexivity].
-        -- intro c0. cbn. lia.
-        -- intros k0 X Hp. rewrite Hp; f_equal; cbn; lia.
-        -- lia.
-Qed.
-
-Lemma Eff_IRemoteCan : forall cf st th k f e c d room st1 pushed, Inv st ->
-  iok (items st) (gcs st) (seen st) th (IRemoteCan k f e c d) ->
-  exec cf st (IRemoteCan k f e c d) room = (st1, pushed) -> Eff st th (IRemoteCan k f e c d) st1 pushed.
-Proof.
-  intros cf st th k f e c d room st1 pushed HI Hi H. cbn [exec] in H.
-  apply (iok_adm _ _ _ _ (IRemoteCan k f e c d) k f eq_refl) in Hi. destruct Hi as [Hth Hkf].
-  destruct (c_state (get_conn st d) =? c_connectionActive).
-  - inversion H. subst st1 pushed.
-    apply Eff_noitems; [exact HI|reflexivity|reflexivity|reflexivity|reflexivity| | | | | | | ].
-    + apply (inv_timers _ HI).
-    + intro k0. apply pending_put_same. reflexivity.
-    + constructor; [|constructor]. eapply iok_of_adm; [reflexivity|exact Hth|exact Hkf].
-    + left. split; [reflexivity|eexists; reflexivity].
-    + intro c0. cbn. lia.
-    + intros k0 X Hp. cbn [put_conn set_conns conns items]. rewrite getc_insert.
-      cbn [csum hold_i]. destruct (k0 =? d) eqn:E.
-      * apply Z.eqb_eq in E. subst k0. cbn [c_pending]. rewrite get_conn_getc.
-        rewrite (Z.eqb_refl d). cbn [b2z]. rewrite (wrapU_eq_add _ _ 1 Hp). f_equal. cbn [hold_i]. lia.
-      * rewrite Hp. rewrite (Z.eqb_sym d k0), E. cbn [b2z hold_i]. f_equal. lia.
-    + cbn. lia.
-  - inversion H. subst st1 pushed.
-    apply Eff_noitems; [exact HI|reflexivity|reflexivity|reflexivity|reflexivity| | | | | | | ].
-    + apply (inv_timers _ HI).
-    + intro; apply Z.le_refl.
-    + forall_plain_iok.
-    + right. repeat constructor.
-    + intro c0. cbn. lia.
-    + intros k0 X Hp. rewrite Hp; f_equal; cbn; lia.
-    + lia.
-Qed.
-
-Lemma Eff_IDec : forall cf st th k room st1 pushed, Inv st ->
-  exec cf st (IDec k) room = (st1, pushed) -> Eff st th (IDec k) st1 pushed.
-Proof.
-  intros cf st th k room st1 pushed HI H. cbn [exec] in H. inversion H. subst st1 pushed.
-  apply Eff_noitems; [exact HI|reflexivity|reflexivity|reflexivity|reflexivity| | | | | | | ].
-  - apply (inv_timers _ HI).
-  - intro k0. apply pending_put_same. reflexivity.
-  - constructor.
-  - right. constructor.
-  - intro c0. cbn. lia.
-  - intros k0 X Hp. cbn [put_conn set_conns conns items]. rewrite getc_insert.
-    cbn [csum hold_i]. destruct (k0 =? k) eqn:E.
-    + apply Z.eqb_eq in E. subst k0. cbn [c_pending]. rewrite get_conn_getc.
-      cbn [hold_i] in Hp. rewrite Z.eqb_refl in Hp. cbn [b2z] in Hp.
-      replace (c_pending (getc (conns st) k) - 1) with (c_pending (getc (conns st) k) + (-1)) by lia.
-      rewrite (wrapU_eq_add _ _ (-1) Hp). f_equal. lia.
-    + cbn [hold_i] in Hp. rewrite Z.eqb_sym, E in Hp. exact Hp.
-  - cbn. lia.
-Qed.
-
-(* ---- instructions that change the item tables ---- *)
-
-Lemma Eff_removed : forall st th i st' pushed t it, Inv st ->
-  threads st' = threads st -> seen st' = seen st -> conns st' = conns st -> cblog st' = cblog st ->
-  next_call st' = next_call st -> gcs st' = gcs st -> items st' = kremove t (items st) ->
-  klookup t (items st) = Some it -> timers_ok (timers st') ->
-  Forall plain pushed ->
-  (forall c, csum (tok_i c) pushed = tok_i c i + b2z ((it_call it =? c) && it_orig it && negb (it_tomb it))) ->
-  (forall k, csum (hold_i k) pushed = hold_i k i + b2z ((key_conn t =? k) && negb (it_tomb it))) ->
-  Eff st th i st' pushed.
-Proof.
-  intros st th i st' pushed t it HI Hth Hsn Hcs Hlog Hnc Hg Hit Hl Htm Hpl Htok Hhold.
-  pose proof (inv_items_nd _ HI) as Hnd.
-  unfold Eff. rewrite Hth, Hsn, Hcs, Hlog, Hnc, Hg, Hit.
-  split; [reflexivity|]. split; [reflexivity|].
-  split; [apply (nodup_remove key_eqb key_eqb_ok); exact Hnd|].
-  split; [apply keys_ok_remove; apply (inv_keys _ HI)|].
-  split; [apply orig_ok_remove; apply (inv_orig _ HI)|].
-  split; [apply gcs_ok_remove; apply (inv_gcs _ HI)|].
-  split; [exact Htm|].
-  split.
-  { intros k f _ Hkf. eapply key_free_ext; [exact Hkf|apply incl_refl| |intro H; exact H].
-    destruct Hkf as (_&Hn&_). rewrite Hn.
-    apply (notin_lookup_none key_eqb key_eqb_ok). intro Hin.
-    apply (in_keys_remove key_eqb key_eqb_ok) in Hin. destruct Hin as [Hin _].
-    apply (lookup_none_notin key_eqb key_eqb_ok) in Hn. contradiction. }
-  split. { eapply Forall_impl; [|exact Hpl]. intros j Hj. apply plain_iok. exact Hj. }
-  split. { right. eapply Forall_impl; [|exact Hpl]. intros j [Hj _]. exact Hj. }
-  split. { intro c. rewrite (asum_tok_remove c _ t it Hnd Hl), Htok. lia. }
-  split; [|lia].
-  intros k X Hp. rewrite Hp. f_equal. rewrite (asum_live_remove k _ t it Hnd Hl), Hhold. lia.
-Qed.
-
-Lemma Eff_entombed : forall st th i st' pushed t it, Inv st ->
-  threads st' = threads st -> seen st' = seen st -> conns st' = conns st -> cblog st' = cblog st ->
-  next_call st' = next_call st -> gcs st' = t :: gcs st -> items st' = kinsert t (entomb_item it) (items st) ->
-  klookup t (items st) = Some it -> it_tomb it = false -> timers_ok (timers st') ->
-  Forall plain pushed ->
-  (forall c, csum (tok_i c) pushed = tok_i c i + b2z ((it_call it =? c) && it_orig it)) ->
-  (forall k, csum (hold_i k) pushed = hold_i k i + b2z (key_conn t =? k)) ->
-  Eff st th i st' pushed.
-Proof.
-  intros st th i st' pushed t it HI Hth Hsn Hcs Hlog Hnc Hg Hit Hl Htomb Htm Hpl Htok Hhold.
-  pose proof (inv_items_nd _ HI) as Hnd.
-  unfold Eff. rewrite Hth, Hsn, Hcs, Hlog, Hnc, Hg, Hit.
-  split; [reflexivity|]. split; [reflexivity|].
-  split; [apply (nodup_insert key_eqb key_eqb_ok); exact Hnd|].
-  split; [apply keys_ok_entomb; [apply (inv_keys _ HI)|exact Hl]|].
-  split; [apply orig_ok_entomb; [apply (inv_orig _ HI)|exact Hl]|].
-  split; [apply gcs_ok_entomb; apply (inv_gcs _ HI)|].
-  split; [exact Htm|].
-  split.
-  { intros k f _ Hkf. destruct Hkf as (Hs&Hn&Hng).
-    assert (Hne : (k, 0, f_id f) <> t) by (intro Heq; subst t; congruence).
-    repeat split; [exact Hs| |].
-    - rewrite (lookup_insert_neq key_eqb key_eqb_ok) by exact Hne. exact Hn.
-    - intros [Heq|Hin]; [apply Hne; symmetry; exact Heq|contradiction]. }
-  split. { eapply Forall_impl; [|exact Hpl]. intros j Hj. apply plain_iok. exact Hj. }
-  split. { right. eapply Forall_impl; [|exact Hpl]. intros j [Hj _]. exact Hj. }
-  split. { intro c. rewrite (asum_tok_entomb c _ t it Hnd Hl Htomb), Htok. lia. }
-  split; [|lia].
-  intros k X Hp. rewrite Hp. f_equal. rewrite (asum_live_entomb k _ t it Hnd Hl Htomb), Hhold. lia.
-Qed.
-
-Lemma orig_tail_plain : forall k id c s, Forall plain (orig_tail k id c s).
-Proof. intros k id c s. unfold orig_tail. destruct s; plain_tac. Qed.
-Lemma orig_tail_tok : forall c0 k id c s, csum (tok_i c0) (orig_tail k id c s) = b2z (c =? c0).
-Proof.
-  intros c0 k id c s. unfold orig_tail. destruct s; [destruct (reason =? reason_source_slow)|]; cbn; lia.
-Qed.
-Lemma orig_tail_hold : forall k0 k id c s, csum (hold_i k0) (orig_tail k id c s) = 0.
-Proof.
-  intros k0 k id c s. unfold orig_tail. destruct s; [destruct (reason =? reason_source_slow)|]; reflexivity.
-Qed.
-
-Lemma Eff_IDelete : forall cf st th t room st1 pushed, Inv st ->
-  exec cf st (IDelete t) room = (st1, pushed) -> Eff st th (IDelete t) st1 pushed.
-Proof.
-  intros cf st th t room st1 pushed HI H. cbn [exec] in H.
-  destruct (items_delete st t) as [st' g] eqn:E.
-  pose proof (items_delete_timers _ _ _ _ (inv_timers _ HI) E) as Htm.
-  apply items_delete_spec in E. destruct E as (H1&H2&H3&H4&H5&H6&H7&H8).
-  destruct (klookup t (items st)) as [it|] eqn:El.
-  - destruct H8 as [Hg Hi]. subst g. destruct (it_tomb it) eqn:Et; cbn [negb] in H; inversion H; subst st1 pushed.
-    + eapply (Eff_removed st th _ st' [] t it); try assumption; try constructor.
-      * intro c. rewrite Et. rewrite andb_false_r. reflexivity.
-      * intro k. rewrite Et. rewrite andb_false_r. reflexivity.
-    + eapply (Eff_removed st th _ st' _ t it); try assumption.
-      * plain_tac.
-      * intro c. rewrite Et, andb_true_r, csum_app. destruct (it_orig it); cbn; rewrite ?andb_true_r, ?andb_false_r; cbn; lia.
-      * intro k. rewrite Et, andb_true_r, csum_app. destruct (it_orig it); cbn; lia.
-  - destruct H8 as [Hg Hi]. subst g. inversion H; subst st1 pushed.
-    apply Eff_pure; try assumption.
-    + intro k. apply conns_same. exact H1.
-    + constructor.
-    + intro c. rewrite H4. reflexivity.
-    + reflexivity.
-Qed.
-
-Lemma Eff_IEntomb : forall cf st th t s room st1 pushed, Inv st ->
-  iok (items st) (gcs st) (seen st) th (IEntomb t s) ->
-  exec cf st (IEntomb t s) room = (st1, pushed) -> Eff st th (IEntomb t s) st1 pushed.
-Proof.
-  intros cf st th t s room st1 pushed HI Hi H. cbn [exec] in H.
-  destruct (items_entomb cf st t) as [st' g] eqn:E.
-  pose proof (items_entomb_timers _ _ _ _ _ (inv_timers _ HI) E) as Htm.
-  apply items_entomb_spec in E. destruct E as (H1&H3&H4&H5&H6&H7&H8).
-  assert (Hsame : gcs st' = gcs st -> items st' = items st -> Eff st th (IEntomb t s) st' []).
-  { intros Hg Hit. apply Eff_pure; try assumption.
-    - intro k. apply conns_same. exact H1.
-    - constructor.
-    - intro c. rewrite H4. reflexivity.
-    - reflexivity. }
-  destruct (klookup t (items st)) as [it|] eqn:El.
-  - assert (Horig : match s with FromFail _ => it_orig it | FromTimeout o => o end = it_orig it).
-    { destruct s as [r|o]; [reflexivity|]. unfold iok in Hi. cbn in Hi. subst o. symmetry.
-      eapply (inv_orig _ HI). eapply (lookup_in key_eqb key_eqb_ok). exact El. }
-    destruct H8 as [(Hg&Hit&Hgc)|[(Ht&Hg&Hit&Hgc)|(Ht&Hg&Hit&Hgc)]]; subst g.
-    + (* too many tombstones: deleted *)
-      destruct (it_tomb it) eqn:Et; cbn [negb] in H; inversion H; subst st1 pushed.
-      * eapply (Eff_removed st th _ st' [] t it); try assumption; try constructor.
-        -- intro c. rewrite Et, andb_false_r. reflexivity.
-        -- intro k. rewrite Et, andb_false_r. reflexivity.
-      * rewrite Horig. eapply (Eff_removed st th _ st' _ t it); try assumption.
-        -- apply Forall_app. split; [destruct (it_orig it); [apply orig_tail_plain|constructor]|plain_tac].
-        -- intro c. rewrite Et, andb_true_r, csum_app. destruct (it_orig it);
-             [rewrite orig_tail_tok|]; cbn; rewrite ?andb_true_r, ?andb_false_r; cbn; lia.
-        -- intro k. rewrite Et, andb_true_r, csum_app. destruct (it_orig it); [rewrite orig_tail_hold|]; cbn; lia.
-    + inversion H; subst st1 pushed. apply Hsame; assumption.
-    + inversion H; subst st1 pushed. cbn [entomb_item it_orig it_call]. rewrite Horig.
-      eapply (Eff_entombed st th _ st' _ t it); try assumption.
-      * apply Forall_app. split; [destruct (it_orig it); [apply orig_tail_plain|constructor]|plain_tac].
-      * intro c. rewrite csum_app. destruct (it_orig it);
-          [rewrite orig_tail_tok|]; cbn; rewrite ?andb_true_r, ?andb_false_r; cbn; lia.
-      * intro k. rewrite csum_app. destruct (it_orig it); [rewrite orig_tail_hold|]; cbn; lia.
-  - destruct H8 as (Hg&Hit&Hgc). subst g. inversion H; subst st1 pushed. apply Hsame; assumption.
-Qed.
-
-Lemma Eff_added : forall st th i st' pushed t it, Inv st ->
-  threads st' = threads st -> seen st' = seen st -> cblog st' = cblog st ->
-  next_call st' = next_call st -> gcs st' = gcs st -> items st' = kinsert t it (items st) ->
-  (forall k, c_pending (getc (conns st') k) = c_pending (getc (conns st) k) /\
-             c_nextid (getc (conns st) k) <= c_nextid (getc (conns st') k)) ->
-  klookup t (items st) = None -> ~ In t (gcs st) -> it_tomb it = false -> it_orig it = (key_dir t =? 0) ->
-  ((key_dir t = 0 /\ In (key_conn t, key_id t) (seen st)) \/
-   (key_dir t = 1 /\ key_id t < c_nextid (getc (conns st') (key_conn t)))) ->
-  (forall k f, th <> TR k -> (k, 0, f_id f) <> t) ->
-  timers_ok (timers st') ->
-  Forall (iok (items st') (gcs st') (seen st') th) pushed ->
-  ((is_adm i = true /\ exists j, pushed = [j]) \/ Forall (fun j => is_adm j = false) pushed) ->
-  (forall c, csum (tok_i c) pushed + b2z ((it_call it =? c) && it_orig it) = tok_i c i) ->
-  (forall k, csum (hold_i k) pushed + b2z (key_conn t =? k) = hold_i k i) ->
-  Eff st th i st' pushed.
-Proof.
-  intros st th i st' pushed t it HI Hth Hsn Hlog Hnc Hg Hit Hcs Hl Hng Htomb Horig Hkey Hother Htm Hiok Hadm Htok Hhold.
-  pose proof (inv_items_nd _ HI) as Hnd.
-  unfold Eff. split; [exact Hth|]. split; [exact Hsn|].
-  rewrite Hsn, Hlog, Hnc, Hg, Hit.
-  split; [apply (nodup_insert key_eqb key_eqb_ok); exact Hnd|].
-  split.
-  { intros t' Hin.
-    assert (Hold : In t' (map fst (items st)) \/ In t' (gcs st) ->
-                   key_dir t' = 0 /\ In (key_conn t', key_id t') (seen st) \/
-                   key_dir t' = 1 /\ key_id t' < c_nextid (getc (conns st') (key_conn t'))).
-    { intro Ho. destruct (inv_keys _ HI t' Ho) as [H0|[H1 H2]]; [left; exact H0|right].
-      split; [exact H1|]. destruct (Hcs (key_conn t')) as [_ Hm]. lia. }
-    destruct Hin as [Hin|Hin]; [|apply Hold; right; exact Hin].
-    apply (in_keys_insert key_eqb key_eqb_ok) in Hin. destruct Hin as [->|Hin]; [exact Hkey|apply Hold; left; exact Hin]. }
-  split; [apply orig_ok_add; [apply (inv_orig _ HI)|exact Horig]|].
-  split; [apply gcs_ok_add; [apply (inv_gcs _ HI)|exact Hng]|].
-  split; [exact Htm|].
-  split.
-  { intros k f Hne Hkf. eapply key_free_ext; [exact Hkf|apply incl_refl| |intro H; exact H].
-    apply (lookup_insert_neq key_eqb key_eqb_ok). apply Hother. exact Hne. }
-  split. { rewrite Hsn, Hg, Hit in Hiok. exact Hiok. }
-  split; [exact Hadm|].
-  split.
-  { intro c. rewrite (asum_insert_none key_eqb) by exact Hl. specialize (Htok c).
-    change (item_tok c t it) with (b2z ((it_call it =? c) && it_orig it && negb (it_tomb it))).
-    rewrite Htomb. cbn [negb]. rewrite andb_true_r. lia. }
-  split; [|lia].
-  intros k X Hp. destruct (Hcs k) as [Hpe _]. rewrite Hpe, Hp. f_equal.
-  rewrite (asum_insert_none key_eqb) by exact Hl. specialize (Hhold k).
-  change (live_i k t it) with (b2z ((key_conn t =? k) && negb (it_tomb it))).
-  rewrite Htomb. cbn [negb]. rewrite andb_true_r. lia.
-Qed.
-
-Lemma Eff_IAddDest : forall cf st th k f e c d room st1 pushed, Inv st ->
-  iok (items st) (gcs st) (seen st) th (IAddDest k f e c d) ->
-  exec cf st (IAddDest k f e c d) room = (st1, pushed) -> Eff st th (IAddDest k f e c d) st1 pushed.
-Proof.
-  intros cf st th k f e c d room st1 pushed HI Hi H. cbn [exec] in H.
-  apply (iok_adm _ _ _ _ (IAddDest k f e c d) k f eq_refl) in Hi. destruct Hi as [Hth Hkf].
-  unfold timer_new in H. cbn [fst snd] in H. inversion H. subst st1 pushed. clear H.
-  set (did := c_nextid (get_conn st d)).
-  set (t := (d, 1, did)).
-  assert (Hfresh : ~ (In t (map fst (items st)) \/ In t (gcs st))).
-  { intro Hin. destruct (inv_keys _ HI t Hin) as [[H0 _]|[_ H1]]; [cbn in H0; discriminate|].
-    cbn in H1. unfold did in H1. rewrite get_conn_getc in H1. lia. }
-  eapply (Eff_added st th _ _ _ t); try reflexivity; try exact HI.
-  - intro k0. cbn [put_conn set_conns set_timers set_next_tm set_items conns]. rewrite getc_insert.
-    destruct (k0 =? d) eqn:E; [|split; [reflexivity|lia]].
-    apply Z.eqb_eq in E. subst k0. cbn. rewrite get_conn_getc. split; [reflexivity|]. fold did. unfold did. rewrite get_conn_getc. lia.
-  - apply (notin_lookup_none key_eqb key_eqb_ok). intro Hin. apply Hfresh. left. exact Hin.
-  - intro Hin. apply Hfresh. right. exact Hin.
-  - right. split; [reflexivity|]. cbn [put_conn set_conns set_timers set_next_tm set_items conns key_conn key_id fst snd t].
-    rewrite getc_insert, Z.eqb_refl. cbn. lia.
-  - intros k0 f0 _ Heq. unfold t in Heq. inversion Heq.
-  - cbn. apply timers_ok_insert; [apply (inv_timers _ HI)|reflexivity].
-  - constructor; [|constructor]. eapply iok_of_adm; [reflexivity|exact Hth|].
-    cbn [put_conn set_conns set_timers set_next_tm set_items conns items gcs seen].
-    eapply key_free_ext; [exact Hkf|apply incl_refl| |intro Hx; exact Hx].
-    apply (lookup_insert_neq key_eqb key_eqb_ok). intro Heq. inversion Heq.
-  - left. split; [reflexivity|eexists; reflexivity].
-  - intro c0. cbn. rewrite andb_false_r. cbn. lia.
-  - intro k0. cbn [csum hold_i key_conn fst t]. lia.
-Qed.
-
-Lemma Eff_IAddOrig : forall cf st th k f e c d did room st1 pushed, Inv st ->
-  iok (items st) (gcs st) (seen st) th (IAddOrig k f e c d did) ->
-  exec cf st (IAddOrig k f e c d did) room = (st1, pushed) -> Eff st th (IAddOrig k f e c d did) st1 pushed.
-Proof.
-  intros cf st th k f e c d did room st1 pushed HI Hi H. cbn [exec] in H.
-  apply (iok_adm _ _ _ _ (IAddOrig k f e c d did) k f eq_refl) in Hi. destruct Hi as [Hth Hkf].
-  unfold timer_new in H. cbn [fst snd] in H. inversion H. subst st1 pushed. clear H.
-  destruct Hkf as (Hs&Hn&Hng).
-  eapply (Eff_added st th _ _ _ (k, 0, f_id f)); try reflexivity; try exact HI; try assumption.
-  - intro k0. cbn. split; [reflexivity|lia].
-  - left. split; [reflexivity|exact Hs].
-  - intros k0 f0 Hne Heq. inversion Heq. subst. apply Hne. reflexivity.
-  - cbn. apply timers_ok_insert; [apply (inv_timers _ HI)|reflexivity].
-  - eapply Forall_impl; [intros ? Hpl_; apply plain_iok; exact Hpl_|].
-    destruct (e_mode e <? 0); plain_tac.
-  - right. destruct (e_mode e <? 0); repeat constructor.
-  - intro c0. destruct (e_mode e <? 0); cbn; rewrite andb_true_r; lia.
-  - intro k0. destruct (e_mode e <? 0); cbn; lia.
-Qed.
-
-(* ---------------------------------------------------------------- every instruction *)
-
-Lemma exec_eff : forall cf st th i room st1 pushed, Inv st ->
-  iok (items st) (gcs st) (seen st) th i ->
-  exec cf st i room = (st1, pushed) -> Eff st th i st1 pushed.
-Proof.
-  intros cf st th i room st1 pushed HI Hi H. destruct i.
-  - eapply Eff_IStart; eassumption.
-  - eapply Eff_ICanHandle; eassumption.
-  - eapply Eff_IGetDest; eassumption.
-  - eapply Eff_IRemoteCan; eassumption.
-  - eapply Eff_IAddDest; eassumption.
-  - eapply Eff_IAddOrig; eassumption.
-  - cbn [exec] in H. inversion H. subst. apply Eff_ICb. exact HI.
-  - eapply Eff_IDec; eassumption.
-  - eapply Eff_ISendErr; eassumption.
-  - eapply Eff_IConnClose; eassumption.
-  - eapply Eff_INcGet; eassumption.
-  - eapply Eff_INcChk; eassumption.
-  - eapply Eff_IRcvGet; eassumption.
-  - eapply Eff_IRcvChk; eassumption.
-  - eapply Eff_IRcvEnq; eassumption.
-  - eapply Eff_IFailGet; eassumption.
-  - eapply Eff_IEntomb; eassumption.
-  - eapply Eff_IDelete; eassumption.
-  - eapply Eff_ITimerRun; eassumption.
-Qed.
-
-(* ---------------------------------------------------------------- threads *)
-
-Notation tlookup := (lookup tid_eqb).
-
-Lemma set_thread_threads : forall st th code,
-  threads (set_thread st th code) =
-  match code with [] => remove tid_eqb th (threads st) | _ => insert tid_eqb th code (threads st) end.
-Proof. intros st th code. destruct code; reflexivity. Qed.
-
-Lemma set_thread_nodup : forall st th code, NoDup (map fst (threads st)) -> NoDup (map fst (threads (set_thread st th code))).
-Proof.
-  intros st th code H. rewrite set_thread_threads. destruct code.
-  - apply (nodup_remove tid_eqb tid_eqb_ok). exact H.
-  - apply (nodup_insert tid_eqb tid_eqb_ok). exact H.
-Qed.
-
-Lemma set_thread_in : forall st th code th' code', In (th', code') (threads (set_thread st th code)) ->
-  (th' = th /\ code' = code) \/ (th' <> th /\ In (th', code') (threads st)).
-Proof.
-  intros st th code th' code' H. rewrite set_thread_threads in H. destruct code.
-  - apply (in_remove tid_eqb tid_eqb_ok) in H. right. destruct H as [H Hn]. split; assumption.
-  - apply (in_insert tid_eqb tid_eqb_ok) in H. destruct H as [[H1 H2]|[H Hn]]; [left; split; assumption|right; split; assumption].
-Qed.
-
-Lemma tsum_set_thread : forall f st th code, NoDup (map fst (threads st)) ->
-  tsum f (threads (set_thread st th code)) =
-  tsum f (threads st) - match tlookup th (threads st) with Some c => csum f c | None => 0 end + csum f code.
-Proof.
-  intros f st th code Hnd. rewrite set_thread_threads. unfold tsum.
-  destruct (tlookup th (threads st)) as [c|] eqn:El.
-  - destruct code.
-    + rewrite (asum_remove_some tid_eqb tid_eqb_ok _ th c) by assumption. cbn. lia.
-    + rewrite (asum_insert_some tid_eqb tid_eqb_ok _ th _ c) by assumption. lia.
-  - destruct code.
-    + rewrite (asum_remove_none tid_eqb) by assumption. cbn. lia.
-    + rewrite (asum_insert_none tid_eqb) by assumption. lia.
-Qed.
-
-Lemma iok_nonadm_indep : forall its g sn its' g' sn' th j, is_adm j = false -> iok its g sn th j -> iok its' g' sn' th j.
-Proof.
-  intros its g sn its' g' sn' th j Ha H. unfold iok in *. unfold is_adm in Ha.
-  destruct (adm_kf j); [discriminate|exact H].
-Qed.
-
-(* code of another thread stays well-formed when only "its own" key facts are preserved *)
-Lemma code_ok_stable : forall its g sn its' g' sn' th code,
-  code_ok its g sn th code ->
-  (forall k f, th = TR k -> key_free its g sn k f -> key_free its' g' sn' k f) ->
-  code_ok its' g' sn' th code.
-Proof.
-  intros its g sn its' g' sn' th code [Hf Ha] Hst. split; [|exact Ha].
-  eapply Forall_impl; [|exact Hf]. intros j Hj. unfold iok in *.
-  destruct (adm_kf j) as [[k f]|]; [|exact Hj].
-  destruct Hj as [Hth Hkf]. split; [exact Hth|]. apply Hst; assumption.
-Qed.
-
-Lemma set_thread_fields : forall st th code,
-  conns (set_thread st th code) = conns st /\ items (set_thread st th code) = items st /\
-  gcs (set_thread st th code) = gcs st /\ cblog (set_thread st th code) = cblog st /\
-  seen (set_thread st th code) = seen st /\ next_call (set_thread st th code) = next_call st /\
-  timers (set_thread st th code) = timers st.
-Proof. intros. repeat split; reflexivity. Qed.
-
-(* ---------------------------------------------------------------- one step *)
-
-Lemma step_LStep_inv : forall cf st th room st', Inv st -> step cf st (LStep th room) = Some st' -> Inv st'.
-Proof.
-  intros cf st th room st' HI H. unfold step in H.
-  destruct (negb (panicked st =? 0)); [discriminate|].
-  destruct (tlookup th (threads st)) as [[|i rest]|] eqn:El; try discriminate.
-  destruct (exec cf st i room) as [st1 pushed] eqn:E. inversion H. subst st'. clear H.
-  pose proof (lookup_in tid_eqb tid_eqb_ok _ _ _ El) as Hin.
-  destruct (inv_code _ HI _ _ Hin) as [Hf Halone].
-  assert (Hi : iok (items st) (gcs st) (seen st) th i) by (inversion Hf; assumption).
-  assert (Hrest : Forall (iok (items st) (gcs st) (seen st) th) rest) by (inversion Hf; assumption).
-  pose proof (exec_eff _ _ _ _ _ _ _ HI Hi E) as HE.
-  destruct HE as (Hth&Hsn&Hnd&Hkeys&Horig&Hgcs&Htm&Hstab&Hpiok&Hadm&Htok&Hpend&Hnc).
-  assert (Hnd1 : NoDup (map fst (threads st1))) by (rewrite Hth; apply (inv_threads_nd _ HI)).
-  assert (El1 : tlookup th (threads st1) = Some (i :: rest)) by (rewrite Hth; exact El).
-  constructor.
-  - exact Hnd.
-  - apply set_thread_nodup. exact Hnd1.
-  - exact Hkeys.
-  - exact Horig.
-  - exact Hgcs.
-  - exact Htm.
-  - intros th' code' Hin'. apply set_thread_in in Hin'. cbn [set_thread set_threads items gcs seen].
-    destruct Hin' as [[-> ->]|[Hne Hin']].
-    + (* the stepping thread *)
-      destruct (is_adm i) eqn:Eadm.
-      * assert (Hr : rest = []).
-        { specialize (Halone i (or_introl eq_refl) Eadm). inversion Halone. reflexivity. }
-        subst rest. rewrite app_nil_r. split; [exact Hpiok|].
-        destruct Hadm as [[_ [j ->]]|Hna].
-        -- intros j' [<-|[]] _. reflexivity.
-        -- intros j' Hj' Ha'. rewrite Forall_forall in Hna. rewrite (Hna j' Hj') in Ha'. discriminate.
-      * assert (Hrna : Forall (fun j => is_adm j = false) rest).
-        { apply Forall_forall. intros j Hj. destruct (is_adm j) eqn:Ej; [|reflexivity].
-          specialize (Halone j (or_intror Hj) Ej). inversion Halone. subst. rewrite Eadm in Ej. discriminate. }
-        destruct Hadm as [[Hc _]|Hna]; [discriminate|].
-        split.
-        -- apply Forall_app. split; [exact Hpiok|].
-           rewrite Forall_forall in *. intros j Hj. eapply iok_nonadm_indep; [apply Hrna; exact Hj|apply Hrest; exact Hj].
-        -- intros j Hj Ha. apply in_app_or in Hj. rewrite Forall_forall in Hna, Hrna.
-           destruct Hj as [Hj|Hj]; [rewrite (Hna j Hj) in Ha|rewrite (Hrna j Hj) in Ha]; discriminate.
-    + rewrite Hth in Hin'. eapply code_ok_stable; [apply (inv_code _ HI); exact Hin'|].
-      intros k f Heq Hkf. apply Hstab; [|exact Hkf]. subst th'. intro Hc. apply Hne. symmetry. exact Hc.
-  - intro c. unfold total. cbn [set_thread set_threads cblog items next_call].
-    fold (threads (set_thread st1 th (pushed ++ rest))).
-    rewrite (tsum_set_thread (tok_i c) st1 th (pushed ++ rest) Hnd1), El1, csum_app. cbn [csum].
-    rewrite Hth. pose proof (inv_total _ HI c) as Ht. unfold total in Ht. specialize (Htok c). lia.
-  - intro k. cbn [set_thread set_threads conns items].
-    fold (threads (set_thread st1 th (pushed ++ rest))).
-    rewrite (tsum_set_thread (hold_i k) st1 th (pushed ++ rest) Hnd1), El1, csum_app. cbn [csum]. rewrite Hth.
-    pose proof (inv_pending _ HI k) as Hp.
-    rewrite (Hpend k (tsum (hold_i k) (threads st) - hold_i k i)).
-    + f_equal. lia.
-    + rewrite Hp. f_equal. lia.
-  - cbn [set_thread set_threads next_call]. pose proof (inv_next _ HI). lia.
-Qed.
-
-(* a new thread with plain code, or a state change that only concerns connection states *)
-Lemma Inv_conns : forall st cs', Inv st ->
-  (forall k, c_pending (getc cs' k) = c_pending (getc (conns st) k) /\ c_nextid (getc cs' k) = c_nextid (getc (conns st) k)) ->
-  Inv (set_conns st cs').
-Proof.
-  intros st cs' HI Hcs. constructor; cbn [set_conns conns items gcs threads seen cblog timers next_call].
-  - apply (inv_items_nd _ HI).
-  - apply (inv_threads_nd _ HI).
-  - eapply keys_ok_conns; [|apply (inv_keys _ HI)]. intro k. destruct (Hcs k) as [_ H]. lia.
-  - apply (inv_orig _ HI).
-  - apply (inv_gcs _ HI).
-  - apply (inv_timers _ HI).
-  - apply (inv_code _ HI).
-  - intro c. apply (inv_total _ HI c).
-  - intro k. destruct (Hcs k) as [H _]. rewrite H. apply (inv_pending _ HI k).
-  - apply (inv_next _ HI).
-Qed.
-
-Lemma Inv_put_conn_state : forall st k s, Inv st ->
-  Inv (put_conn st k {| c_state := s; c_pending := c_pending (get_conn st k); c_nextid := c_nextid (get_conn st k) |}).
-Proof.
-  intros st k s HI. unfold put_conn. apply Inv_conns; [exact HI|].
-  intro k0. rewrite getc_insert. destruct (k0 =? k) eqn:E; [|split; reflexivity].
-  apply Z.eqb_eq in E. subst. cbn. rewrite get_conn_getc. split; reflexivity.
-Qed.
-
-Lemma Inv_new_thread : forall st th code, Inv st ->
-  tlookup th (threads st) = None -> code <> [] ->
-  code_ok (items st) (gcs st) (seen st) th code ->
-  (forall c, csum (tok_i c) code = 0) -> (forall k, csum (hold_i k) code = 0) ->
-  Inv (set_thread st th code).
-Proof.
-  intros st th code HI Hl Hne Hok Htok Hhold.
-  pose proof (inv_threads_nd _ HI) as Hnd.
-  constructor; cbn [set_thread set_threads conns items gcs seen cblog timers next_call].
-  - apply (inv_items_nd _ HI).
-  - apply set_thread_nodup. exact Hnd.
-  - apply (inv_keys _ HI).
-  - apply (inv_orig _ HI).
-  - apply (inv_gcs _ HI).
-  - apply (inv_timers _ HI).
-  - intros th' code' Hin. apply set_thread_in in Hin.
-    destruct Hin as [[-> ->]|[_ Hin]]; [exact Hok|apply (inv_code _ HI); exact Hin].
-  - intro c. unfold total. cbn [set_thread set_threads cblog items].
-    fold (threads (set_thread st th code)). rewrite (tsum_set_thread _ _ _ _ Hnd), Hl, Htok.
-    pose proof (inv_total _ HI c) as Ht. unfold total in Ht. lia.
-  - intro k. fold (threads (set_thread st th code)). rewrite (tsum_set_thread _ _ _ _ Hnd), Hl, Hhold.
-    rewrite (inv_pending _ HI k). f_equal. lia.
-  - apply (inv_next _ HI).
-Qed.
-
-Lemma Inv_set_timers : forall st x, Inv st -> timers_ok x -> Inv (set_timers st x).
-Proof.
-  intros st x HI Hx. constructor; cbn [set_timers conns items gcs threads seen cblog timers next_call];
-    try apply HI. exact Hx.
-Qed.
-
-Lemma Inv_set_seen : forall st p, Inv st -> Inv (set_seen st (p :: seen st)).
-Proof.
-  intros st p HI. constructor; cbn [set_seen conns items gcs threads seen cblog timers next_call]; try apply HI.
-  - intros t Hin. destruct (inv_keys _ HI t Hin) as [[H0 H1]|H]; [left; split; [exact H0|right; exact H1]|right; exact H].
-  - intros th code Hin. eapply code_ok_stable; [apply (inv_code _ HI); exact Hin|].
-    intros k f _ Hkf. eapply key_free_ext; [exact Hkf|apply incl_tl; apply incl_refl|reflexivity|intro H; exact H].
-Qed.
-
-Lemma step_inv : forall cf st l st', Inv st -> fresh_label st l = true -> step cf st l = Some st' -> Inv st'.
-Proof.
-  intros cf st l st' HI Hfresh H. destruct l as [k f e|th room|tm|t|k|k|k].
-  - (* LArrive *)
-    unfold step in H. destruct (negb (panicked st =? 0)); [discriminate|].
-    destruct (tlookup (TR k) (threads st)) eqn:El; [discriminate|].
-    destruct (relayRoute (f_mt f) (cf_cancel cf) =? 1); [|inversion H; subst; exact HI].
-    destruct (f_mt f =? c_messageTypeCallReq) eqn:Emt.
-    + inversion H. subst st'. clear H.
-      cbn [fresh_label] in Hfresh. rewrite Emt in Hfresh. cbn [andb] in Hfresh.
-      apply negb_true_iff in Hfresh.
-      assert (Hnotseen : ~ In (k, f_id f) (seen st)).
-      { intro Hin. assert (Hex : existsb (fun p => (fst p =? k) && (snd p =? f_id f)) (seen st) = true).
-        { apply existsb_exists. exists (k, f_id f). split; [exact Hin|]. cbn. rewrite !Z.eqb_refl. reflexivity. }
-        congruence. }
-      pose proof (Inv_set_seen st (k, f_id f) HI) as HI2.
-      apply Inv_new_thread; [exact HI2|exact El|discriminate| |reflexivity|reflexivity].
-      cbn [set_seen items gcs seen]. split.
-      * constructor; [|constructor]. eapply iok_of_adm; [reflexivity|reflexivity|].
-        assert (Hno : ~ (In (k, 0, f_id f) (map fst (items st)) \/ In (k, 0, f_id f) (gcs st))).
-        { intro Hin. destruct (inv_keys _ HI _ Hin) as [[_ H1]|[H1 _]]; [cbn in H1; contradiction|cbn in H1; discriminate]. }
-        repeat split.
-        -- left. reflexivity.
-        -- apply (notin_lookup_none key_eqb key_eqb_ok). intro Hin. apply Hno. left. exact Hin.
-        -- intro Hin. apply Hno. right. exact Hin.
-      * intros i [<-|[]] _. reflexivity.
-    + inversion H. subst st'. clear H.
-      apply Inv_new_thread; [exact HI|exact El|discriminate| |reflexivity|reflexivity].
-      split; [|intros i [<-|[]] Ha; discriminate].
-      constructor; [|constructor]. apply plain_iok. apply plain_simple; [reflexivity|intros ? ?; discriminate].
-  - eapply step_LStep_inv; eassumption.
-  - (* LFire *)
-    unfold step in H. destruct (negb (panicked st =? 0)); [discriminate|].
-    destruct (lookup Z.eqb tm (timers st)) as [x|] eqn:El; [|discriminate].
-    destruct (tlookup (TT tm) (threads st)) eqn:Et; [rewrite andb_false_r in H; discriminate|].
-    destruct (tm_armed x); [|discriminate]. cbn [andb] in H. inversion H. subst st'. clear H.
-    apply Inv_new_thread.
-    + apply Inv_set_timers; [exact HI|]. apply timers_ok_insert; [apply (inv_timers _ HI)|]. cbn.
-      eapply (inv_timers _ HI). exact El.
-    + exact Et.
-    + discriminate.
-    + split; [|intros i [<-|[]] Ha; discriminate].
-      constructor; [|constructor]. apply plain_iok. apply plain_simple; [reflexivity|intros ? ?; discriminate].
-    + reflexivity.
-    + reflexivity.
-  - (* LGc *)
-    unfold step in H. destruct (negb (panicked st =? 0)); [discriminate|].
-    destruct (mem_key t (gcs st)) eqn:Em; [|discriminate]. inversion H. subst st'. clear H.
-    assert (Hint : In t (gcs st)).
-    { unfold mem_key in Em. apply existsb_exists in Em. destruct Em as [x [Hx Heq]]. apply key_eqb_ok in Heq. subst. exact Hx. }
-    assert (Hsub : forall x, In x (remove_one t (gcs st)) -> In x (gcs st)).
-    { intro x. generalize (gcs st). intro l. induction l as [|y r IH]; cbn; [tauto|].
-      destruct (key_eqb t y); [intro Hx; right; exact Hx|]. intros [Hx|Hx]; [left; exact Hx|right; apply IH; exact Hx]. }
-    destruct (items_delete (set_gcs st (remove_one t (gcs st))) t) as [st' g] eqn:E. cbn [fst].
-    pose proof (items_delete_timers (set_gcs st (remove_one t (gcs st))) _ _ _ (inv_timers _ HI) E) as Htm.
-    apply items_delete_spec in E. cbn [set_gcs conns gcs threads cblog sent seen next_call items] in E.
-    destruct E as (H1&H2&H3&H4&H5&H6&H7&H8).
-    pose proof (inv_items_nd _ HI) as Hnd.
-    assert (Hkf : forall its', (forall x, klookup x (items st) = None -> klookup x its' = None) ->
-              forall th code, In (th, code) (threads st) -> code_ok its' (remove_one t (gcs st)) (seen st) th code).
-    { intros its' Hl th code Hin. eapply code_ok_stable; [apply (inv_code _ HI); exact Hin|].
-      intros k f _ (Ha&Hb&Hc). repeat split; [exact Ha|apply Hl; exact Hb|]. intro Hx. apply Hc. apply Hsub. exact Hx. }
-    destruct (klookup t (items st)) as [it|] eqn:El.
-    + destruct H8 as [_ Hit].
-      assert (Htomb : it_tomb it = true) by (eapply (inv_gcs _ HI); eassumption).
-      constructor; rewrite ?H1, ?H2, ?H3, ?H4, ?H6, ?H7, ?Hit.
-      * apply (nodup_remove key_eqb key_eqb_ok). exact Hnd.
-      * apply (inv_threads_nd _ HI).
-      * intros x Hin. apply (inv_keys _ HI). destruct Hin as [Hin|Hin].
-        -- left. apply (in_keys_remove key_eqb key_eqb_ok) in Hin. destruct Hin as [Hin _]. exact Hin.
-        -- right. apply Hsub. exact Hin.
-      * apply orig_ok_remove. apply (inv_orig _ HI).
-      * intros x it' Hin Hl. eapply (gcs_ok_remove _ _ (inv_gcs _ HI)); [apply Hsub; exact Hin|exact Hl].
-      * exact Htm.
-      * apply Hkf. intros x Hx. destruct (eqb_dec key_eqb key_eqb_ok x t) as [->|Hn].
-        -- apply (lookup_remove_eq key_eqb key_eqb_ok).
-        -- rewrite (lookup_remove_neq key_eqb key_eqb_ok) by exact Hn. exact Hx.
-      * intro c. unfold total. rewrite ?H4, ?H3, ?Hit. rewrite (asum_tok_remove c _ t it Hnd El), Htomb, andb_false_r.
-        pose proof (inv_total _ HI c) as Ht. unfold total in Ht. cbn [b2z]. lia.
-      * intro k. rewrite ?H3, ?Hit. rewrite (asum_live_remove k _ t it Hnd El), Htomb, andb_false_r.
-        rewrite (inv_pending _ HI k). cbn [b2z]. f_equal. lia.
-      * apply (inv_next _ HI).
-    + destruct H8 as [_ Hit].
-      constructor; rewrite ?H1, ?H2, ?H3, ?H4, ?H6, ?H7, ?Hit.
-      * exact Hnd.
-      * apply (inv_threads_nd _ HI).
-      * intros x Hin. apply (inv_keys _ HI). destruct Hin as [Hin|Hin]; [left; exact Hin|right; apply Hsub; exact Hin].
-      * apply (inv_orig _ HI).
-      * intros x it' Hin Hl. eapply (inv_gcs _ HI); [apply Hsub; exact Hin|exact Hl].
-      * exact Htm.
-      * apply Hkf. intros x Hx. exact Hx.
-      * intro c. unfold total. rewrite ?H4, ?H3, ?Hit. apply (inv_total _ HI c).
-      * intro k. rewrite ?H3, ?Hit. apply (inv_pending _ HI k).
-      * apply (inv_next _ HI).
-  - (* LClose *)
-    unfold step in H. destruct (negb (panicked st =? 0)); [discriminate|].
-    destruct (c_state (get_conn st k) =? c_connectionActive); [|discriminate]. inversion H. subst.
-    apply Inv_put_conn_state. exact HI.
-  - unfold step in H. destruct (negb (panicked st =? 0)); [discriminate|]. inversion H. subst.
-    apply Inv_put_conn_state. exact HI.
-  - unfold step in H. destruct (negb (panicked st =? 0)); [discriminate|].
-    match type of H with (if ?b then _ else _) = _ => destruct b end; [|discriminate]. inversion H. subst.
-    apply Inv_put_conn_state. exact HI.
-Qed.
-
-Lemma Inv_init : Inv init.
-Proof.
-  constructor; cbn.
-  - constructor.
-  - constructor.
-  - intros t [[]|[]].
-  - intros t it [].
-  - intros t it [].
-  - intros tm x H. discriminate.
-  - intros th code [].
-  - intro c. unfold total, started. cbn. destruct (1 <=? c) eqn:E1, (c <? 1) eqn:E2; cbn; try reflexivity.
-    apply Z.leb_le in E1. apply Z.ltb_lt in E2. lia.
-  - intro k. reflexivity.
-  - lia.
-Qed.
-
-Theorem run_fresh_inv : forall cf ls st st', Inv st -> run_fresh cf st ls = Some st' -> Inv st'.
-Proof.
-  intros cf ls. induction ls as [|l r IH]; intros st st' HI H; cbn in H.
-  - inversion H. subst. exact HI.
-  - destruct (fresh_label st l) eqn:Ef; [|discriminate].
-    destruct (step cf st l) as [st1|] eqn:Es; [|discriminate].
-    eapply IH; [eapply step_inv; eassumption|exact H].
-Qed.
-
-Corollary reach_inv : forall cf ls st, run_fresh cf init ls = Some st -> Inv st.
-Proof. intros cf ls st H. eapply run_fresh_inv; [apply Inv_init|exact H]. Qed.
->>>>>>> build-C09
